@@ -881,6 +881,11 @@ func (tc *typechecker) binaryOp(expr1 ast.Expression, op ast.OperatorType, expr2
 		if !(t1.Untyped() && t1.IsNumeric() || !t1.Untyped() && t1.IsInteger()) {
 			return nil, fmt.Errorf("shift of type %s", t1)
 		}
+		if t1.Untyped() && t1.IsConstant() && !t1.Constant.imag().zero() {
+			// Whatever type the context gives to the operand, a constant
+			// with an imaginary part is not an integer.
+			return nil, fmt.Errorf("shifted operand %s (type %s) must be integer", expr1, t1)
+		}
 		if t2.Nil() {
 			return nil, errors.New("cannot convert nil to type uint")
 		}
